@@ -47,6 +47,18 @@ class GotranCCodePrinter(C99CodePrinter):
     def __init__(self, *args, **kwargs):
         super().__init__(*args, **kwargs)
         self._settings["contract"] = False
+        # Names the generated code uses itself are renamed like C keywords
+        functions = {
+            name
+            for value in self.known_functions.values()
+            for name in ([value] if isinstance(value, str) else [n for _, n in value])
+        }
+        self.reserved_words = (
+            set(self.reserved_words)
+            | functions
+            | set(self.math_macros.values())
+            | {"pow", "fmod"}
+        )
 
     def _print_Float(self, flt):
         return self._print(str(float(flt)))
